@@ -143,6 +143,8 @@ class Repeat(addons.AddonMainTask, block.SBlock):
         # send the original event synchronously in order
         # not to conceal a possible forbidden loop
         data['orig_source'] = data.get('source')
+        # the event may come from another Repeat block, this block does its own numbering
+        data.pop('repeat', None)
         self.set_output(0)
         self._repeated_event.send(self, **data, repeat=0)
         self._queue.put_nowait(data)
